@@ -33,7 +33,7 @@ pub fn vid_to_key(p: &Program) -> BTreeMap<u32, u32> {
                 Op::Insert(k, v) | Op::TryInsert(k, v) | Op::Compute(k, _, v) => {
                     m.insert(*v, *k);
                 }
-                Op::Extend(kv) => {
+                Op::Extend(kv) | Op::ParExtend(kv, _, _) => {
                     for (k, v) in kv {
                         m.insert(*v, *k);
                     }
@@ -181,7 +181,7 @@ pub fn linearizability(p: &Program, r: &RunResult, stats: &mut LinStats, flavour
                     }
                 }
             }
-            (Op::Extend(kv), Res::Unit) => {
+            (Op::Extend(kv), Res::Unit) | (Op::ParExtend(kv, _, _), Res::Unit) => {
                 for (k, vid) in kv {
                     push(*k, KKind::BlindInsert(ANY, if set { 0 } else { *vid }), h.inv, h.ret, false);
                 }
@@ -311,6 +311,34 @@ pub fn collects(r: &RunResult) -> Vec<Violation> {
             let wantv: Vec<(u32, u32)> = want.into_iter().collect();
             if got != wantv {
                 out.push(v("collect-wrong-contents", format!("t{} op{} collect() of {} pairs yields {:?}, expected {:?}", h.thread, h.idx, kv.len(), got, wantv)));
+            }
+        }
+    }
+    out
+}
+
+/// C19: `from_par_iter` must produce exactly the supplied keys, each with one of the values
+/// supplied for it (which one is up to the order in which the pool runs the parts).
+pub fn par_collects(r: &RunResult) -> Vec<Violation> {
+    let mut out = Vec::new();
+    for h in &r.history {
+        if let (Op::ParCollect(kv, parts), Res::Items { items, .. }) = (&h.op, &h.res) {
+            let mut want: BTreeMap<u32, Vec<u32>> = BTreeMap::new();
+            for (k, vv) in kv {
+                want.entry(*k).or_default().push(*vv);
+            }
+            let mut got_keys: Vec<u32> = items.iter().map(|i| i.k).collect();
+            got_keys.sort_unstable();
+            let want_keys: Vec<u32> = want.keys().copied().collect();
+            if got_keys != want_keys {
+                out.push(v("par-collect-wrong-keys", format!("t{} op{} from_par_iter() of {} items in {} parts yields keys {:?}, sequential insertion yields {:?}", h.thread, h.idx, kv.len(), parts, got_keys, want_keys)));
+                continue;
+            }
+            for it in items {
+                // sets carry no values (value id 0)
+                if it.vid != 0 && !want.get(&it.k).map(|vs| vs.contains(&it.vid)).unwrap_or(false) {
+                    out.push(v("par-collect-wrong-value", format!("t{} op{} from_par_iter(): key {} is mapped to value {} which was not supplied for it (supplied: {:?})", h.thread, h.idx, it.k, it.vid, want.get(&it.k))));
+                }
             }
         }
     }
@@ -475,7 +503,7 @@ pub fn trees(r: &RunResult) -> Vec<Violation> {
 fn mutates(op: &Op) -> bool {
     matches!(
         op,
-        Op::Insert(..) | Op::TryInsert(..) | Op::Remove(..) | Op::RemoveEntry(..) | Op::Compute(..) | Op::Extend(..) | Op::Retain(..) | Op::RetainForce(..) | Op::Clear
+        Op::Insert(..) | Op::TryInsert(..) | Op::Remove(..) | Op::RemoveEntry(..) | Op::Compute(..) | Op::Extend(..) | Op::ParExtend(..) | Op::Retain(..) | Op::RetainForce(..) | Op::Clear
     )
 }
 
@@ -584,7 +612,7 @@ pub fn iterators(p: &Program, r: &RunResult, st: &mut IterStats) -> Vec<Violatio
                     continue;
                 }
                 let touches = match &h.op {
-                    Op::Extend(kv) => kv.iter().any(|x| x.0 == k),
+                    Op::Extend(kv) | Op::ParExtend(kv, _, _) => kv.iter().any(|x| x.0 == k),
                     Op::Retain(..) | Op::RetainForce(..) | Op::Clear => true,
                     o => o.key() == Some(k),
                 };
@@ -608,7 +636,7 @@ pub fn iterators(p: &Program, r: &RunResult, st: &mut IterStats) -> Vec<Violatio
                             out: if *calls == 0 || *cf == CFn::Remove { None } else { Some(*vid) },
                             ret: *ret,
                         },
-                        (Op::Extend(kv), _) => {
+                        (Op::Extend(kv), _) | (Op::ParExtend(kv, _, _), _) => {
                             let vid = kv.iter().rev().find(|x| x.0 == k).map(|x| x.1).unwrap_or(0);
                             KKind::BlindInsert(ANY, if set { 0 } else { vid })
                         }
@@ -660,7 +688,7 @@ pub fn counters(p: &Program, r: &RunResult, checked: &mut usize) -> Vec<Violatio
         let mut incs = 0u64;
         for h in &r.history {
             let touches = match &h.op {
-                Op::Extend(kv) => kv.iter().any(|x| x.0 == k),
+                Op::Extend(kv) | Op::ParExtend(kv, _, _) => kv.iter().any(|x| x.0 == k),
                 Op::Retain(..) | Op::RetainForce(..) | Op::Clear => true,
                 o => o.key() == Some(k),
             };
